@@ -1442,8 +1442,12 @@ fn fam_random<T: Payload>(c: &Case, cx: &mut Ctx) -> Outcome {
     let mut rng = Rng::new(c.seed ^ 0xABCD);
     let mut sc = Scn::<T>::new(c.cap, c.d & 4 == 4, c.seed);
     // spare handles so that futures/streams can borrow one and drops do not disconnect by accident
-    sc.mexec(Op::CloneS(rng.chance(1, 2)));
-    sc.mexec(Op::CloneR(rng.chance(1, 2)));
+    // (one script in three goes without: exactly one handle per side, so that everything several threads do goes
+    // through that one handle)
+    if !rng.chance(1, 3) {
+        sc.mexec(Op::CloneS(rng.chance(1, 2)));
+        sc.mexec(Op::CloneR(rng.chance(1, 2)));
+    }
     // some scripts pile up many waiters (the wait list starts with room for 4 or 8 entries and then grows)
     let maxlive = 2 + rng.below(7) as usize;
     let nsteps = 5 + rng.below(12) as usize + if maxlive > 4 { 8 } else { 0 };
